@@ -36,6 +36,18 @@ profiles.  The only "evaluation" is `const_eval` of constant expressions / modul
            comparison of name sets).
   R4       imported: C13.R8 (rules/c13.py `r8`) - its devices are declared in the Technique section of that module.
   R5       imported: C10.R1 (rules/c10.py `r1`) - 6 only (productions of the compiled grammar grouped and compared).
+  R6       builder side of string literals.  Own part: 1 (every `Token("STRING", X)` construction of the module, resolved
+           callees, callers of non-baseline helpers with argument binding), 3 (the definitions that reach X are followed
+           flow-sensitively to their defining expressions; concatenations / f-strings are split into their parts), 6 (the
+           token type is a folded constant).  The text X must be made by the literal encoder `value_to_string`; a text
+           that is an input of a baseline builder method with at most constants around it (no call in between) is a
+           violation, anything else the rule cannot classify is undecided.
+           imported: C12.R1 (rules/c12.py `r1`, the encoder obligations) - its devices and lemmas are declared in the
+           Technique section of that module.  Why it is a necessary condition of C11: a builder argument v is put into
+           the tree as STRING token value_to_string(v); as_dict reports string_token_to_bytes / [1:-1] of that token, and
+           "the same profile parsed from text" has the token the grammar reads from the literal that denotes v - so the
+           dictionary view reports the bytes given to the builder, and built == parsed, only if the encoder's literal
+           decodes to exactly v and is one well-formed double-quoted STRING.
 """
 
 from __future__ import annotations
@@ -47,7 +59,7 @@ from csverif import tables
 from csverif.astutil import assignments_to, bind_args, body_walk, const_eval, dotted, fn_calls, module_env, names_in, NotConst, params, src, statements, strip_cast
 from csverif.cfg import ENTRY, EXIT
 from csverif.grammar import Grammar
-from csverif.q import FuncView, inline
+from csverif.q import FuncView, inline, reaching_origins
 
 # list_props entries that are dead by construction (one line of reason each)
 DEAD_LIST_PROPS = {"stage.transform-x86.header": "stage_transform has no nested block, the path can never be a block stack"}
@@ -383,7 +395,11 @@ def run(ctx):
         "hash and cache stored together after the walk); every builder attribute bound to a ConfigBlock helper names a grammar "
         "alias of the arity the helper's tree has; tree shapes built by set_option / DataTransformBlock equal the grammar's kept symbols; "
         "imported: a builder-made step carries its argument iff one was given (C13.R8) and every tree name/kept-symbol group of the grammar "
-        "stands for one keyword sequence (C10.R1).  Devices: syntax-tree queries, resolved callees and who-may-write checks, CFG dominance "
+        "stands for one keyword sequence (C10.R1); the text of every STRING token built in code is made by the literal encoder value_to_string "
+        "(definitions followed flow-sensitively) and that encoder is lossless and well-formed (imported C12.R1: repr-based escaper pinned to the "
+        "single-quote style with matching slice constants, double quotes escaped on every path, the literal is the escaped text between two "
+        "double quotes) - otherwise the dictionary view of a built profile does not report the value given to the builder and the built tree "
+        "differs from the parsed one.  Devices: syntax-tree queries, resolved callees and who-may-write checks, CFG dominance "
         "and reachability, facts of dominating branch edges with substituted temporaries (kept symbolic), structural comparison of the "
         "Tree(..) terms built in code with grammar productions, case analysis over the literals the code dispatches on, constant folding "
         "of constant tables.  No code of the package is executed or interpreted on data."
@@ -391,22 +407,30 @@ def run(ctx):
     rep.not_decided = ["exactness and order of reported values for all profiles", "the token-stream stack machine's behaviour on variants",
                        "as_dict hands out its cache by reference (observation, not armed: the property speaks of modifications of the profile)",
                        "forms the rules cannot locate are reported as undecided: a list-valued path collection that is not a constant table, a cache "
-                       "that is not a hash-keyed pair of self attributes, builder helpers whose appended Tree(..) term cannot be read off"]
+                       "that is not a hash-keyed pair of self attributes, builder helpers whose appended Tree(..) term cannot be read off, "
+                       "STRING token texts that are neither a call of value_to_string nor an unencoded input (another encoder, a comprehension variable)",
+                       "the decoder side of string literals (string_token_to_bytes: C12.R2/R3) is not imported - R1 only checks that it is the decoder used"]
     rep.trusted_base = ["lark grammar loader", "CPython ast", "reference data-transform path list in csverif/tables.py",
                         "BUILDER_RULES (builder class -> grammar rules) and DEAD_LIST_PROPS tables in rules/c11.py; HELPER_ARITY fallback for helpers whose tree cannot be read off",
                         "lemma L1: s[1:len(s)-1] == s[1:-1] for every sequence s (a negative bound counts from the end)",
                         "lemma L2: hash(x) is an int and a non-numeric constant (None, str) is unequal to every int",
-                        "R4/R5 are decided by rules/c13.py r8 and rules/c10.py r1 (their trusted base applies)"]
+                        "R4/R5 are decided by rules/c13.py r8 and rules/c10.py r1 (their trusted base applies)",
+                        "R6: the encoder obligations are decided by rules/c12.py r1 (its trusted base applies, in particular its lemmas L1/L2 about "
+                        "CPython's repr(bytes)); `value_to_string` is the literal encoder of the package (located by its qualified name)"]
     g = Grammar(ctx.repo)
     r1(ctx, g)
     r2(ctx)
     r3(ctx, g)
     # builder == parser: a builder-made step carries its argument iff one was given (C13.R8), and every alias of the
     # grammar stands for one keyword (C10.R1) - otherwise a parsed option is reported under another option's name
-    from rules import c10, c13
+    from rules import c10, c12, c13
 
     ctx.import_obligations("R4", c13.r8)
     ctx.import_obligations("R5", c10.r1, g)
+    # builder == parser, and the view reports what was given to the builder: the STRING tokens of a built tree are made by
+    # the literal encoder (own part of R6) and the encoder's literal denotes exactly the given value (C12.R1)
+    r6(ctx)
+    ctx.import_obligations("R6", c12.r1)
 
 
 # ============================================================================================================= R1
@@ -914,3 +938,134 @@ def r3(ctx, g):
         ctx.undecided("R3", "GRAM", init, "step/termination name sets", f"no add_step/add_termination call under a membership test located for: {unlocated}; " + "; ".join(detail))
     want_step1 = {a for a, ar in tr.items() if 1 in ar}
     ctx.ob("R3", "GRAM", "c2profile.lark::transform_statement", "1-arg steps", want_step1 == {"append", "prepend"}, f"grammar 1-arg transform steps {sorted(want_step1)} (everything else with a value falls through to add_step)")
+
+
+# ============================================================================================================= R6
+ENCODER = "value_to_string"
+# calls that only re-arrange the elements of what they are given (an iterable of raw values stays an iterable of raw values)
+_REARRANGE = {"items", "list", "tuple", "sorted", "reversed", "enumerate", "zip", "iter"}
+
+
+def _token_args(f, c):
+    """(type expression, text expression) of a `Token(type, value)` construction, else None."""
+    if not _is_call(c, "Token"):
+        return None
+    kw = {k.arg: k.value for k in c.keywords if k.arg}
+    a = list(c.args)
+    tp = a[0] if a else kw.get("type", kw.get("type_"))
+    tx = a[1] if len(a) > 1 else kw.get("value")
+    if tp is None or tx is None or any(isinstance(x, ast.Starred) for x in a):
+        return None
+    return tp, tx
+
+
+def _text_class(ctx, f, e, at, enc, depth=0):
+    """How the text expression e (evaluated at node `at` of function f) is made, over all definitions that reach it:
+    a set over {"enc" (a call of the literal encoder), "const", "raw" (an input of f - a parameter of a baseline function or an
+    element of one - with no call applied), "dead" (a parameter of a non-baseline helper without callers), None (not understood)}."""
+    out = set()
+    if depth > 4:
+        return {None}
+    fv = FuncView.of(f.node)
+
+    def sub(x, d=1):
+        # a sub-expression is judged where it stands (the origins keep their node identity)
+        return _text_class(ctx, f, x, x if fv.stmt_of(x) is not None else at, enc, depth + d)
+
+    for o in reaching_origins(ctx, f, e, at):
+        if isinstance(o, ast.Constant):
+            out.add("const")
+        elif isinstance(o, ast.Call):
+            cal = ctx.rs.resolve_call(f, o)
+            out.add("enc" if cal.kind == "func" and cal.func is not None and cal.func.fq == enc.fq else None)
+        elif isinstance(o, ast.Name):
+            if o.id in params(f.node):
+                out |= _param_class(ctx, f, o.id, enc, depth)
+            else:
+                out.add(None)
+        elif isinstance(o, (ast.For, ast.AsyncFor)):
+            # the element of an iterable: raw if the iterable is (a re-arrangement of) raw values
+            calls = [c for c in ast.walk(o.iter) if isinstance(c, ast.Call)]
+            if all((dotted(c.func) or "").split(".")[-1] in _REARRANGE for c in calls):
+                inner = set()
+                for n in ast.walk(o.iter):
+                    if isinstance(n, ast.Name) and isinstance(n.ctx, ast.Load) and n.id not in _REARRANGE:
+                        inner |= _text_class(ctx, f, n, o, enc, depth + 1)
+                out |= inner if inner and inner <= {"raw", "const"} else {None}
+            else:
+                out.add(None)
+        elif isinstance(o, ast.IfExp):
+            # either alternative may be the text (the test stays symbolic)
+            out |= sub(o.body) | sub(o.orelse)
+        elif isinstance(o, (ast.JoinedStr, ast.BinOp, ast.FormattedValue)):
+            # concatenation / formatting: constants around a value do not encode it
+            parts = o.values if isinstance(o, ast.JoinedStr) else [o.value] if isinstance(o, ast.FormattedValue) else [o.left, o.right] if isinstance(o.op, (ast.Add, ast.Mod)) else None
+            if parts is None:
+                out.add(None)
+                continue
+            got = set()
+            for p in parts:
+                for q in (p.elts if isinstance(p, ast.Tuple) else [p]):
+                    got |= sub(q)
+            if None in got or "enc" in got:
+                out.add(None)  # an encoded text with something around it: not a form the rule knows
+            else:
+                out |= got
+        else:
+            out.add(None)
+    return out
+
+
+def _param_class(ctx, f, name, enc, depth):
+    """A parameter of a function of the baseline vocabulary (the builder API) is the caller's value: raw.  A parameter of a helper
+    somebody introduced is whatever its callers in the package pass."""
+    if f.qualname in _baseline_funcs(f.module.name):
+        return {"raw"}
+    out = set()
+    for g in ctx.repo.all_funcs():
+        for c in fn_calls(g.node):
+            cal = ctx.rs.resolve_call(g, c)
+            if cal.kind == "func" and cal.func is not None and cal.func.fq == f.fq:
+                a = bind_args(c, f.node, skip_self=bool(f.cls) and isinstance(c.func, ast.Attribute)).get(name)
+                out |= _text_class(ctx, g, a, c, enc, depth + 1) if a is not None else {None}
+    # no call left in the package: the normaliser inlined the helper into its call sites (where its tokens are judged)
+    return out or {"dead"}
+
+
+def r6(ctx):
+    """Every STRING token built in code carries the text the literal encoder makes of the given value."""
+    if not ctx.repo.has_func(f"{MOD}.{ENCODER}"):
+        ctx.undecided("R6", "TAINT", f"{MOD}.py", "STRING token text made by the literal encoder", f"the literal encoder {ENCODER} not located")
+        return
+    enc = ctx.repo.func(f"{MOD}.{ENCODER}")
+    n = 0
+    for f in ctx.repo.module(MOD).funcs.values():
+        sites = []
+        for c in fn_calls(f.node):
+            ta = _token_args(f, c)
+            if ta is not None and _c(_inl(f, ta[0])) == "STRING":
+                sites.append((c, ta[1]))
+        if not sites:
+            continue
+        n += len(sites)
+        dead = 0
+        raw, unknown = [], []
+        for c, tx in sites:
+            got = _text_class(ctx, f, tx, c, enc)
+            if "raw" in got:
+                raw.append(src(tx)[:40])
+            elif None in got or not got:
+                unknown.append(src(tx)[:40])
+            elif "dead" in got:
+                dead += 1
+        text = "STRING token text made by the literal encoder"
+        if dead == len(sites):
+            continue  # a helper outside the baseline vocabulary that nobody calls any more
+        if raw:
+            ctx.ob("R6", "TAINT", f, text, False, f"{len(sites)} STRING token(s) built; the given value reaches the token text without passing {ENCODER} "
+                   f"(no quoting/escaping: the built token is not the literal the parser reads for that value): {sorted(set(raw))}", sites[0][0])
+        elif unknown:
+            ctx.undecided("R6", "TAINT", f, text, f"{len(sites)} STRING token(s) built; cannot tell how the text is made: {sorted(set(unknown))}", sites[0][0])
+        else:
+            ctx.ob("R6", "TAINT", f, text, True, f"{len(sites)} STRING token(s) built, each from {ENCODER}(<value>) (or a constant text) on every definition that reaches it")
+    ctx.rep.count("string_tokens_built", n, floor=8)
